@@ -50,10 +50,18 @@ type Report struct {
 
 	mu  sync.Mutex
 	idx map[string]int
+	as  string
 }
 
 func Open(property, part string) *Report {
-	return &Report{Property: property, Part: part, Shard: os.Getenv("VERIF_SHARD"), idx: map[string]int{}}
+	r := &Report{Property: property, Part: part, Shard: os.Getenv("VERIF_SHARD"), idx: map[string]int{}}
+	// VERIF_AS=<id>: the same exploration serves another property that only cares about the
+	// generic verdicts (deadlock, panic, data race, request never returned): the report is
+	// filed under that property and the component-specific oracle verdicts are dropped.
+	if as := os.Getenv("VERIF_AS"); as != "" && as != property {
+		r.Property, r.Part, r.as = as, property+"-"+part, as
+	}
+	return r
 }
 
 func Tier() string {
@@ -119,6 +127,18 @@ func (r *Report) AddUnmodelled(u ...string) {
 // Violate records a violation; per key the cheapest witness is kept and occurrences are counted.
 func (r *Report) Violate(key, what string, cost int, replay interface{}) {
 	key = strings.ReplaceAll(key, " ", "_")
+	if r.as != "" {
+		generic := false
+		for _, g := range []string{"/deadlock", "/panic", "/data-race", "never-returned"} {
+			if strings.Contains(key, g) {
+				generic = true
+			}
+		}
+		if !generic {
+			return
+		}
+		key = r.as + "/" + key
+	}
 	r.mu.Lock()
 	defer r.mu.Unlock()
 	if i, ok := r.idx[key]; ok {
